@@ -133,6 +133,10 @@ pub struct Substr<'a> { pub slice: &'a [u8] }
 pub open spec fn occurs_at(hay: Seq<u8>, sub: Seq<u8>, j: int) -> bool {
     0 <= j && j + sub.len() <= hay.len() && hay.subrange(j, j + sub.len()) == sub
 }
+// the needle's first byte does not occur again inside it (precondition of the forward search, as in units/inlineimg)
+pub open spec fn head_unique(needle: Seq<u8>) -> bool {
+    needle.len() > 0 && forall|j: int| 1 <= j < needle.len() ==> #[trigger] needle[j] != needle[0]
+}
 // the token (ISO 32000-1 7.2) that Lexer::next yields from position `pos` (under contract in unit lexer: next_is_iso_token)
 pub uninterp spec fn token_after(buf: Seq<u8>, pos: int) -> Seq<u8>;
 // there is a token at or after `pos` (otherwise Lexer::next is Err(EOF); unit lexer: next_eof_keeps_pos)
@@ -168,6 +172,18 @@ impl<'a> Lexer<'a> {
                 && occurs_at(old(self).buf@.subrange(0, old(self).pos as int), substr@, final(self).pos - substr@.len())
                 && (forall|j: int| final(self).pos - substr@.len() < j ==> !occurs_at(old(self).buf@.subrange(0, old(self).pos as int), substr@, j)),
             r is Err ==> (forall|j: int| !occurs_at(old(self).buf@.subrange(0, old(self).pos as int), substr@, j)),
+    { unimplemented!() }
+    // forward search; proved on the real text in units/inlineimg: Lexer::seek_substr/{seek_wf, seek_first_occurrence,
+    // seek_none_means_absent} (there with the pointwise `occ`, which is `occurs_at` by extensionality); the real parameter
+    // is `impl AsRef<[u8]>`
+    #[verifier::external_body]
+    pub fn seek_substr(&mut self, substr: &[u8]) -> (r: Option<Substr<'a>>)
+        requires old(self).wf(), head_unique(substr@)
+        ensures final(self).wf(), final(self).buf == old(self).buf, final(self).off == old(self).off,
+            r is Some ==> old(self).pos <= final(self).pos - substr@.len()
+                && occurs_at(old(self).buf@, substr@, final(self).pos - substr@.len())
+                && (forall|j: int| old(self).pos <= j < final(self).pos - substr@.len() ==> !occurs_at(old(self).buf@, substr@, j)),
+            r is None ==> (forall|j: int| old(self).pos <= j ==> !occurs_at(old(self).buf@, substr@, j)),
     { unimplemented!() }
     #[verifier::external_body]
     pub fn next(&mut self) -> (r: Result<Substr<'a>>)
@@ -214,6 +230,7 @@ fn hoist_contains(v: &Vec<usize>, x: usize) -> (r: bool) ensures r == v@.contain
 fn hoist_min(a: usize, b: usize) -> (r: usize) ensures r == if a <= b { a } else { b } { std::cmp::min(a, b) }
 // the keyword `startxref`: 73 74 61 72 74 78 72 65 66
 pub open spec fn KW_STARTXREF() -> Seq<u8> { seq![0x73u8, 0x74, 0x61, 0x72, 0x74, 0x78, 0x72, 0x65, 0x66] }
+pub proof fn lemma_kw_head_unique() ensures head_unique(KW_STARTXREF()), KW_STARTXREF().len() == 9 {}
 #[verifier::external_body]
 fn hoist_kw_startxref() -> (r: &'static [u8]) ensures r@ == KW_STARTXREF() { b"startxref" }
 // ISO 32000-1 7.5.5: "The two preceding lines shall contain, one per line and in order, the keyword startxref and the
